@@ -13,7 +13,6 @@ from __future__ import annotations
 
 import collections
 import copy
-import hashlib
 import itertools
 import json
 import re
@@ -376,7 +375,7 @@ def _after_export(case, src, opts):
     try:
         if case.kind == "model":
             back, how = RT.back_to_model(case.proto, src, opts)
-            diffs = RT.model_interface_diff(case.proto, back, opts["rename"])
+            diffs = RT.model_interface_diff(case.proto, back, opts["rename"], case.names)
             run_model = back
         else:
             fb = RT.back_to_function(case.proto, src, opts)
@@ -450,8 +449,9 @@ def eval_leaf(case, bits):
         res["src"] = src
         res["reused"] = reused
         if not case.in_class:
-            # outside the class: only "valid Python that computes something else" and invalid Python text count
-            if res["kind"] in ("decoration-fails", "no-function", "signature", "invalid-model"):
+            # outside the class a refusal is correct, also a late one (the emitted module does not load); emitted
+            # text that is not Python, or a module that loads and denotes another interface/computation, is not
+            if res["kind"] in ("decoration-fails", "no-function"):
                 res["kind"], res["was"] = "late-refusal", res["kind"]
     _LEAVES[lk] = res
     return res
@@ -519,7 +519,7 @@ def _has_loop(case, pred):
     return walk(case.proto.graph.node if isinstance(case.proto, onnx.ModelProto) else case.proto.node)
 
 
-def _constant_py_names(case, rename):
+def _constant_py_names(case):
     """Cleaned names of Constant-node outputs / initializers (values the inline_const option may substitute)."""
     _, RT = _mods()
     out = set()
@@ -537,8 +537,6 @@ def _constant_py_names(case, rename):
         walk(case.proto.graph.node)
     else:
         walk(case.proto.node)
-    if rename:
-        out.add(None)   # names are v<k>: cannot be related to the proto; accept any unbound v<k>
     return out
 
 
@@ -578,7 +576,7 @@ def _base_feature(case, bits, leaf):
     if is_model and opts["skip_initializers"] and "value-info" in tags and kind == "decoration-fails" and "NameError" in sym:
         return "value-info-type-not-imported"
     if opts["inline_const"] and kind == "decoration-fails" and "Unbound name" in sym \
-            and leaf.get("unbound") in _constant_py_names(case, opts["rename"]):
+            and leaf.get("unbound") in _constant_py_names(case):
         return "inlined-const-assigned"
     if "swap" in tags and kind == "not-equivalent":
         return "loop-carried-swap"
@@ -800,7 +798,6 @@ def execute(item):
 
 def summarize(items, results, tier):
     per_base = collections.Counter()
-    ok_by_opt = collections.Counter()
     for it, r in zip(items, results):
         per_base[f"{it['base']}/{it['kind']}"] += 1
     leafc = collections.Counter()
